@@ -528,6 +528,77 @@ static void run_schema(uint64_t idx, Ctx& c) {
     if (idx % 997 == 0) c.sample("{\"history\":" + jstr(schema_str(g)) + "}");
 }
 
+// ------------------------------------------------------------------------------------------ grammar-cache switches
+// Histories over the switches that decide WHICH grammar a parse uses: cacheGrammarFromParse on/off, useCachedGrammarInParse on/off,
+// resetCachedGrammarPool, loadGrammar(toCache), and parses of two documents that bind ONE namespace to two DIFFERENT schema documents.
+// Reference model (documented lookup order, GrammarResolver::getGrammar): with useCachedGrammarInParse a grammar of the namespace that is in the
+// parser's pool is used instead of the one the document names; without it the pool is not consulted at all.  cacheGrammarFromParse(true) implies
+// useCachedGrammarInParse(true), and useCachedGrammarInParse(false) is ignored while cacheGrammarFromParse is on (parser classes).  The expected
+// outcome of the final parse is produced by a fresh parser that is given the grammar in force (preloaded) or nothing.
+static const char* TOG_OPS[] = {"cacheGrammarFromParse(true)", "cacheGrammarFromParse(false)", "useCachedGrammarInParse(true)", "useCachedGrammarInParse(false)",
+                                "resetCachedGrammarPool", "loadGrammar(s1.xsd, toCache)", "parse(D1 -> s1.xsd)", "parse(D2 -> s2.xsd)", "parse(plain)"};
+static const int NTOG = 9;
+static int g_tdepth = 3;
+static std::string TOG_DOC[3];
+static void tog_files() {
+    g_vfs->put("/v/s1.xsd", "<xs:schema xmlns:xs='http://www.w3.org/2001/XMLSchema' targetNamespace='urn:demo' xmlns='urn:demo' elementFormDefault='qualified'><xs:element name='r'><xs:complexType><xs:sequence><xs:element name='qty' type='xs:int'/></xs:sequence><xs:attribute name='unit' type='xs:string' default='box'/></xs:complexType></xs:element></xs:schema>");
+    g_vfs->put("/v/s2.xsd", "<xs:schema xmlns:xs='http://www.w3.org/2001/XMLSchema' targetNamespace='urn:demo' xmlns='urn:demo' elementFormDefault='qualified'><xs:element name='r'><xs:complexType><xs:sequence><xs:element name='qty' type='xs:string'/><xs:element name='note' type='xs:token' minOccurs='0'/></xs:sequence><xs:attribute name='unit' type='xs:string' default='crate'/></xs:complexType></xs:element></xs:schema>");
+    TOG_DOC[0] = "<r xmlns='urn:demo' xmlns:xsi='http://www.w3.org/2001/XMLSchema-instance' xsi:schemaLocation='urn:demo s1.xsd'><qty>3</qty></r>";
+    TOG_DOC[1] = "<r xmlns='urn:demo' xmlns:xsi='http://www.w3.org/2001/XMLSchema-instance' xsi:schemaLocation='urn:demo s2.xsd'><qty>three</qty><note> n  m </note></r>";
+    TOG_DOC[2] = "<plain a='1'>t</plain>";
+}
+struct TCase { int api, scanner, fin; std::vector<int> ops; };
+static TCase tog_case(uint64_t idx) {
+    TCase t; uint64_t nw = words_upto(NTOG, g_tdepth);
+    t.ops = word_at(idx % nw, NTOG, g_tdepth); idx /= nw;
+    t.fin = (int)(idx % 2); idx /= 2;
+    t.scanner = (int)(idx % 2); idx /= 2;
+    t.api = (int)idx;
+    return t;
+}
+static std::string tog_str(const TCase& t) {
+    std::string s = std::string(BoxName[t.api]) + "/" + (t.scanner ? "SGXMLScanner" : "IGXMLScanner") + ": ";
+    for (int o : t.ops) s += std::string(TOG_OPS[o]) + "; ";
+    return s + (t.fin ? "parse(D2 -> s2.xsd)" : "parse(D1 -> s1.xsd)");
+}
+static void run_toggle(uint64_t idx, Ctx& c) {
+    TCase t = tog_case(idx);
+    g_vfs->clear(); put_files(); tog_files();
+    Config cfg; cfg.ns = true; cfg.val = 1; cfg.schema = true; cfg.scanner = t.scanner ? SG : IG;
+    std::unique_ptr<Box> used(make_box(t.api)); used->cfg = cfg;
+    bool cacheFP = false, useC = false; int pool = 0;   // model: 0 nothing cached for urn:demo, 1 s1, 2 s2
+    auto model_parse = [&](int k) { int eff = (useC && pool) ? pool : k + 1; if (cacheFP && !pool && k < 2) pool = k + 1; return eff; };
+    for (int o : t.ops) {
+        switch (o) {
+        case 0: used->cacheFromParse(true); cacheFP = true; useC = true; break;
+        case 1: used->cacheFromParse(false); cacheFP = false; break;
+        case 2: used->useCached(true); useC = true; break;
+        case 3: used->useCached(false); if (!cacheFP) useC = false; break;
+        case 4: used->resetGrammarPool(); pool = 0; break;
+        case 5: used->loadGrammar("/v/s1.xsd", true, true); if (!pool) pool = 1; break;
+        case 6: used->parse(TOG_DOC[0], 0); model_parse(0); break;
+        case 7: used->parse(TOG_DOC[1], 0); model_parse(1); break;
+        case 8: used->parse(TOG_DOC[2], 0); break;
+        }
+    }
+    int eff = model_parse(t.fin);
+    ParseResult ru = used->parse(TOG_DOC[t.fin], 0);
+    std::unique_ptr<Box> fresh(make_box(t.api)); fresh->cfg = cfg;
+    if (eff != t.fin + 1) { fresh->loadGrammar(eff == 1 ? "/v/s1.xsd" : "/v/s2.xsd", true, true); fresh->useCached(true); }
+    ParseResult rf = fresh->parse(TOG_DOC[t.fin], 0);
+    c.count("parses", 2);
+    std::string x = cache_view(rf), y = cache_view(ru);
+    if (x != y) {
+        size_t i = 0; while (i < x.size() && i < y.size() && x[i] == y[i]) i++;
+        size_t ls = x.rfind('\n', i); ls = ls == std::string::npos ? 0 : ls + 1;
+        c.violation("grammar-in-force-differs-from-lookup-order", "\"history\":" + jstr(tog_str(t)) + ",\"grammar_in_force_per_model\":" + jstr(eff == 1 ? "s1.xsd" : "s2.xsd") +
+                    ",\"expected\":" + jstr(x.substr(ls, 200)) + ",\"observed\":" + jstr(y.substr(ls, 200)));
+    }
+    c.count(eff == t.fin + 1 ? "final_uses_named_schema" : "final_uses_cached_other_schema");
+    c.count("cache_switch_histories");
+    if (idx % 997 == 0) c.sample("{\"history\":" + jstr(tog_str(t)) + "}");
+}
+
 int main(int argc, char** argv) {
     Args a(argc, argv);
     std::string space = a.str("space", "hist");
@@ -558,6 +629,12 @@ int main(int argc, char** argv) {
         R.describe = [](uint64_t i) { return "{\"history\":" + jstr(schema_str(schema_case(i))) + "}"; };
         R.extra_json = "\"documents\":" + std::to_string(SDOCS.size()) + ",\"depth\":" + std::to_string(g_sdepth) + ",\"api_rotates\":" + (g_srotate ? "true" : "false") +
                        ",\"cache_regimes\":" + std::to_string(g_scaches.size());
+    } else if (space == "toggle") {
+        g_tdepth = (int)a.num("depth", 3);
+        R.total = words_upto(NTOG, g_tdepth) * 2 * 2 * 3;
+        R.fn = run_toggle;
+        R.describe = [](uint64_t i) { return "{\"history\":" + jstr(tog_str(tog_case(i))) + "}"; };
+        R.extra_json = "\"alphabet\":" + std::to_string(NTOG) + ",\"depth\":" + std::to_string(g_tdepth);
     } else if (space == "cache") {
         R.total = 5 * 4 * 4 * 3;
         R.fn = run_cache;
